@@ -258,8 +258,9 @@ def run_case(case):
         bkw = {case["batch"][0]: case["batch"][1]} if case.get("batch") else {}
         models.LOG.clear()
         with under_test("sow"):
-            if case.get("ctor_shuffle") and case["mode"] == "combos" and \
-                    farmer_kind != "sampler":
+            if case.get("ctor_shuffle"):
+                # (for cases and samples too: the crop's own setting is what
+                # sow_cases / sow_samples sow with)
                 import xyzpy.gen.cropping as cropping
                 crop = cropping.Crop(farmer=fm, name="c6", parent_dir=main,
                                      shuffle=case["ctor_shuffle"], **bkw)
@@ -538,6 +539,7 @@ def strategy(draw):
         case["args"] = draw(gens.grid(1, 3, 3, mixed=False, names=names))
         case["n"] = draw(st.integers(1, 8))
         case["np_seed"] = draw(st.integers(0, 2**31))
+        case["ctor_shuffle"] = draw(st.sampled_from([None, None, True, 5]))
         N = case["n"]
     else:
         mode = draw(st.sampled_from(["combos", "combos", "cases"]))
@@ -552,6 +554,8 @@ def strategy(draw):
                 N *= len(v)
         else:
             case["cases"] = draw(gens.case_set(1, 2, 5, names=names))
+            case["ctor_shuffle"] = draw(st.sampled_from([None, None, True,
+                                                         5]))
             N = len(case["cases"]["cases"])
             rest_ = [n for n in names if n not in case["cases"]["args"]]
             k_ = draw(st.sampled_from([0, 0, 1, 2]))
